@@ -100,7 +100,7 @@ func (m *Model) RunOwn(s *Sink, rule string) {
 									break
 								}
 							}
-							if fresh && (cl == nil || definedIn(arg, cl)) {
+							if fresh && (cl == nil || freshInLoop(m, arg, cl, 0)) {
 								s.OK(rule, k2, m.InstrPos(e.Site), "the program argument is produced by a parse inside the same loop pass")
 							} else {
 								s.Violation(rule, k2, m.InstrPos(e.Site), "%s hands %s a program that is not freshly parsed for this use (defined outside the loop over the page's components, or not fresh): several uses would alias one program", fnKey(caller), fnKey(fn))
@@ -197,4 +197,32 @@ func exitsOnly(b *ssa.BasicBlock, li *loopInfo) bool {
 		stack = append(stack, x.Succs...)
 	}
 	return true
+}
+
+// freshInLoop: v is produced anew on every pass of the loop: the result of a call made inside the
+// loop body (possibly through extracts/phis), not a value read from memory that outlives the pass.
+func freshInLoop(m *Model, v ssa.Value, li *loopInfo, d int) bool {
+	if d > 4 {
+		return false
+	}
+	switch x := v.(type) {
+	case *ssa.Call:
+		if !li.body[x.Block()] {
+			return false
+		}
+		sc := x.Call.StaticCallee()
+		return sc != nil && m.InModule(sc)
+	case *ssa.Extract:
+		return freshInLoop(m, x.Tuple, li, d+1)
+	case *ssa.Phi:
+		for _, e := range x.Edges {
+			if !freshInLoop(m, e, li, d+1) {
+				return false
+			}
+		}
+		return len(x.Edges) > 0
+	case *ssa.Alloc:
+		return li.body[x.Block()]
+	}
+	return false
 }
